@@ -187,11 +187,19 @@ func excluded(cmd kit.Cmd) bool {
 				}
 			}
 		}
-	case "xadd":
-		for _, a := range cmd {
-			if string(a) == "*" || strings.HasSuffix(string(a), "-*") {
-				return true
-			}
+	}
+	return false
+}
+
+// autoID: XADD with an ID the server derives from its clock: the IDs differ between any two servers, what is
+// comparable is whether the command is accepted, and the entries' fields
+func autoID(cmd kit.Cmd) bool {
+	if !strings.EqualFold(string(cmd[0]), "xadd") {
+		return false
+	}
+	for _, a := range cmd[1:] {
+		if string(a) == "*" || strings.HasSuffix(string(a), "-*") {
+			return true
 		}
 	}
 	return false
@@ -348,7 +356,23 @@ func wipe(cn *srv.Conn) error {
 	return nil
 }
 
-func dump(cn *srv.Conn) (string, error) {
+// maskIDs renders an XRANGE reply without its IDs
+func maskIDs(v respx.Value) string {
+	if v.Kind != respx.Array {
+		return v.String()
+	}
+	var sb strings.Builder
+	for _, e := range v.Arr {
+		if e.Kind == respx.Array && len(e.Arr) == 2 {
+			sb.WriteString("[<id> " + e.Arr[1].String() + "]")
+		} else {
+			sb.WriteString(e.String())
+		}
+	}
+	return sb.String()
+}
+
+func dump(cn *srv.Conn, maskStreamIDs bool) (string, error) {
 	v, err := cn.DoS(5*time.Second, "KEYS", "*")
 	if err != nil {
 		return "", err
@@ -387,6 +411,10 @@ func dump(cn *srv.Conn) (string, error) {
 		r, err := cn.Do(5*time.Second, read.Bytes()...)
 		if err != nil {
 			return "", err
+		}
+		if maskStreamIDs && string(t.Str) == "stream" {
+			fmt.Fprintf(&sb, "%q %s = %s\n", k, t.String(), maskIDs(r))
+			continue
 		}
 		fmt.Fprintf(&sb, "%q %s = %s\n", k, t.String(), canon(read, r))
 	}
@@ -430,6 +458,7 @@ func execDiff(c Case) kit.Outcome {
 		return what
 	}
 	stored, readBack := false, false
+	autoIDs := false
 	for i, cmd := range c.Prog.Ops {
 		for _, arg := range cmd[1:] {
 			if len(arg) == 0 || bytes.ContainsAny([]byte(arg), " ") || !json.Valid([]byte(`"`+strings.NewReplacer(`"`, ``, `\`, ``, "\n", "", "\r", "", "\t", "").Replace(string(arg))+`"`)) {
@@ -456,12 +485,27 @@ func execDiff(c Case) kit.Outcome {
 			o.Fail = died(fmt.Sprintf("command %d %s through cluster node %d: %v (standalone replied %s)", i, cmd.String(), node+1, err, ra.String()))
 			return o
 		}
+		if autoID(cmd) {
+			autoIDs = true
+			if (ra.Kind == respx.Error) != (rb.Kind == respx.Error) {
+				o.Fail = fmt.Sprintf("command %d %s: standalone replies %s, cluster node %d replies %s", i, cmd.String(), ra.String(), node+1, rb.String())
+				return o
+			}
+			continue
+		}
+		if autoIDs && strings.EqualFold(string(cmd[0]), "xrange") {
+			if maskIDs(ra) != maskIDs(rb) {
+				o.Fail = fmt.Sprintf("command %d %s (IDs left out): standalone replies %s, cluster node %d replies %s", i, cmd.String(), maskIDs(ra), node+1, maskIDs(rb))
+				return o
+			}
+			continue
+		}
 		if canon(cmd, ra) != canon(cmd, rb) {
 			o.Fail = fmt.Sprintf("command %d %s: standalone replies %s, cluster node %d replies %s", i, cmd.String(), canon(cmd, ra), node+1, canon(cmd, rb))
 			return o
 		}
 	}
-	want, err := dump(a)
+	want, err := dump(a, autoIDs)
 	if err != nil {
 		return kit.Outcome{Fail: "infrastructure: dump standalone: " + err.Error()}
 	}
@@ -471,7 +515,7 @@ func execDiff(c Case) kit.Outcome {
 			o.Fail = died(fmt.Sprintf("barrier write through node %d: %v", n+1, err))
 			return o
 		}
-		got, err := dump(conns[n])
+		got, err := dump(conns[n], autoIDs)
 		if err != nil {
 			o.Fail = died(fmt.Sprintf("dump through node %d: %v", n+1, err))
 			return o
